@@ -69,7 +69,8 @@ func (f *fetcher) handleUpstream200(req *http.Request, resp *http.Response, key 
 
 	slog.Debug("Caching response...", "status", resp.Status, "url", req.URL, "key", key)
 
-	lastModified := time.Now()
+	// UTC: the value is later rendered with http.TimeFormat, which labels whatever wall clock it is given "GMT"
+	lastModified := time.Now().UTC()
 	if t, err := http.ParseTime(resp.Header.Get("Last-Modified")); err == nil {
 		lastModified = t
 	}
